@@ -275,6 +275,7 @@ class MultiProcessMediator(Mediator):
             # Receive event times, and let them continue on out-state if there are idle os-processes.
             pipes_time_received = collections.deque()
             event_times_received = 0
+            received_event_times = {}
             while event_times_received < len(event_handlers_in_state_dictionary):
                 for pipe in connection.wait(pipes):
                     if self._event_handlers_state[pipe] == EventHandlerState.event_time_started:
@@ -297,10 +298,7 @@ class MultiProcessMediator(Mediator):
                                     self._out_state_arguments_methods[self._event_handlers[next_pipe]](
                                         *self._out_state_arguments[next_pipe]))
                             self._event_handlers_state[next_pipe] = EventHandlerState.out_state_started
-                        self._scheduler.push_event(event_time, self._event_handlers[pipe])
-                        if self._logger_enabled_for_debug:
-                            self._logger.debug("Pushed candidate event time to the scheduler: {0} ({1})"
-                                               .format(event_time, self._event_handlers[pipe].__class__.__name__))
+                        received_event_times[self._event_handlers[pipe]] = event_time
                     elif self._event_handlers_state[pipe] == EventHandlerState.out_state_started:
                         self._event_handlers_state[pipe] = EventHandlerState.idle
                         if len(pipes_time_received):
@@ -315,6 +313,15 @@ class MultiProcessMediator(Mediator):
                     else:
                         raise MediatorError("Event process with pipe {0} to mediator is already finished"
                                             " and shouldn't receive anything anymore!".format(pipe))
+
+            # Push the candidate event times in the order in which the activator returned the event handlers (as the
+            # single-process mediator does) and not in the order in which the os-processes finished: the scheduler returns
+            # the event that was pushed first if candidate event times are equal.
+            for event_handler in event_handlers_in_state_dictionary.keys():
+                self._scheduler.push_event(received_event_times[event_handler], event_handler)
+                if self._logger_enabled_for_debug:
+                    self._logger.debug("Pushed candidate event time to the scheduler: {0} ({1})"
+                                       .format(received_event_times[event_handler], event_handler.__class__.__name__))
 
             # Request shortest time
             # Pop the earliest event handler from scheduler, and let it calculate out-state
